@@ -7,14 +7,16 @@ use deltio::verif;
 use std::time::Duration;
 use tokio::time::Instant;
 
-fn name_out(parsed: Option<(String, String, String)>) -> String {
+/// `some <project> <id> <display> <1 if the display form parses back to the same name>`
+fn name_out(parsed: Option<(String, String, String, bool)>) -> String {
     match parsed {
         None => "none".to_string(),
-        Some((p, i, d)) => format!(
-            "some {} {} {}",
+        Some((p, i, d, same)) => format!(
+            "some {} {} {} {}",
             hex(p.as_bytes()),
             hex(i.as_bytes()),
-            hex(d.as_bytes())
+            hex(d.as_bytes()),
+            if same { 1 } else { 0 }
         ),
     }
 }
@@ -41,16 +43,19 @@ pub fn eval(line: &str) -> String {
                 let d = n.to_string();
                 let id = n.topic_id().to_string();
                 let proj = d["projects/".len()..d.len() - "/topics/".len() - id.len()].to_string();
-                (proj, id, d)
+                let same = TopicName::try_parse(&d).as_ref() == Some(&n);
+                (proj, id, d, same)
             })),
         },
         "sub.parse" => match unhex_str(toks[1]) {
             None => "skip".into(),
             Some(s) => name_out(SubscriptionName::try_parse(&s).map(|n| {
+                let same = SubscriptionName::try_parse(&n.to_string()).as_ref() == Some(&n);
                 (
                     n.project_id().to_string(),
                     n.subscription_id().to_string(),
                     n.to_string(),
+                    same,
                 )
             })),
         },
